@@ -30,7 +30,10 @@ Record config := {
   cf_introspect_rt : bool;     (* false = DisableRefreshTokenValidation *)
   cf_life_dev : Z;             (* device and user code lifespan *)
   cf_par_life : Z;             (* pushed authorization context lifespan *)
-  cf_par_enforced : bool
+  cf_par_enforced : bool;
+  cf_dev_contract : bool       (* the device-code table follows the storage contract (handler/rfc8628/storage.go): an
+                                  invalidated code is answered with its request and ErrInvalidatedDeviceCode; false = the
+                                  reference store, which deletes the record *)
 }.
 
 (* client_with_custom_token_lifespans.go: per-client overrides of the server's lifetimes, one per
@@ -77,7 +80,7 @@ Definition eff_cfg (cfg : config) (cl : client) (g : lgrant) : config :=
      cf_life_rt := eff (override cl g true) (cf_life_rt cfg);
      cf_pkce_enforce := cf_pkce_enforce cfg; cf_pkce_enforce_public := cf_pkce_enforce_public cfg; cf_pkce_plain := cf_pkce_plain cfg;
      cf_introspect_rt := cf_introspect_rt cfg; cf_life_dev := cf_life_dev cfg; cf_par_life := cf_par_life cfg;
-     cf_par_enforced := cf_par_enforced cfg |}.
+     cf_par_enforced := cf_par_enforced cfg; cf_dev_contract := cf_dev_contract cfg |}.
 
 Definition aud_ok (cfg : config) (hs ns : list aurl) : bool :=
   if cf_aud_exact cfg then exact_audience (map a_raw hs) (map a_raw ns) else default_audience hs ns.
@@ -125,23 +128,26 @@ Record store := {
   pkce : fmap req;                  (* PKCES *)
   oidc : fmap req;                  (* IDSessions, keyed by the authorization code *)
   device : fmap (nat * req);        (* DeviceAuths under the device-code signature: user-code state (0 unused, 1 accepted, 2 rejected) *)
-  par : fmap req                    (* PARSessions *)
+  par : fmap req;                   (* PARSessions *)
+  dev_used : fmap nat               (* invalidated device codes: signature -> request id. Written by every invalidation,
+                                       read only when cf_dev_contract is set (the reference store forgets them) *)
 }.
 
 Definition store0 : store :=
   {| codes := fempty; access := fempty; implicit := fempty; refresh := fempty; at_idx := fempty; rt_idx := fempty; pkce := fempty;
-     oidc := fempty; device := fempty; par := fempty |}.
+     oidc := fempty; device := fempty; par := fempty; dev_used := fempty |}.
 
-Definition set_codes st v := {| codes := v; access := access st; implicit := implicit st; refresh := refresh st; at_idx := at_idx st; rt_idx := rt_idx st; pkce := pkce st; oidc := oidc st; device := device st; par := par st |}.
-Definition set_access st v := {| codes := codes st; access := v; implicit := implicit st; refresh := refresh st; at_idx := at_idx st; rt_idx := rt_idx st; pkce := pkce st; oidc := oidc st; device := device st; par := par st |}.
-Definition set_implicit st v := {| codes := codes st; access := access st; implicit := v; refresh := refresh st; at_idx := at_idx st; rt_idx := rt_idx st; pkce := pkce st; oidc := oidc st; device := device st; par := par st |}.
-Definition set_refresh st v := {| codes := codes st; access := access st; implicit := implicit st; refresh := v; at_idx := at_idx st; rt_idx := rt_idx st; pkce := pkce st; oidc := oidc st; device := device st; par := par st |}.
-Definition set_at_idx st v := {| codes := codes st; access := access st; implicit := implicit st; refresh := refresh st; at_idx := v; rt_idx := rt_idx st; pkce := pkce st; oidc := oidc st; device := device st; par := par st |}.
-Definition set_rt_idx st v := {| codes := codes st; access := access st; implicit := implicit st; refresh := refresh st; at_idx := at_idx st; rt_idx := v; pkce := pkce st; oidc := oidc st; device := device st; par := par st |}.
-Definition set_oidc st v := {| codes := codes st; access := access st; implicit := implicit st; refresh := refresh st; at_idx := at_idx st; rt_idx := rt_idx st; pkce := pkce st; oidc := v; device := device st; par := par st |}.
-Definition set_device st v := {| codes := codes st; access := access st; implicit := implicit st; refresh := refresh st; at_idx := at_idx st; rt_idx := rt_idx st; pkce := pkce st; oidc := oidc st; device := v; par := par st |}.
-Definition set_par st v := {| codes := codes st; access := access st; implicit := implicit st; refresh := refresh st; at_idx := at_idx st; rt_idx := rt_idx st; pkce := pkce st; oidc := oidc st; device := device st; par := v |}.
-Definition set_pkce st v := {| codes := codes st; access := access st; implicit := implicit st; refresh := refresh st; at_idx := at_idx st; rt_idx := rt_idx st; pkce := v; oidc := oidc st; device := device st; par := par st |}.
+Definition set_codes st v := {| codes := v; access := access st; implicit := implicit st; refresh := refresh st; at_idx := at_idx st; rt_idx := rt_idx st; pkce := pkce st; oidc := oidc st; device := device st; par := par st; dev_used := dev_used st |}.
+Definition set_access st v := {| codes := codes st; access := v; implicit := implicit st; refresh := refresh st; at_idx := at_idx st; rt_idx := rt_idx st; pkce := pkce st; oidc := oidc st; device := device st; par := par st; dev_used := dev_used st |}.
+Definition set_implicit st v := {| codes := codes st; access := access st; implicit := v; refresh := refresh st; at_idx := at_idx st; rt_idx := rt_idx st; pkce := pkce st; oidc := oidc st; device := device st; par := par st; dev_used := dev_used st |}.
+Definition set_refresh st v := {| codes := codes st; access := access st; implicit := implicit st; refresh := v; at_idx := at_idx st; rt_idx := rt_idx st; pkce := pkce st; oidc := oidc st; device := device st; par := par st; dev_used := dev_used st |}.
+Definition set_at_idx st v := {| codes := codes st; access := access st; implicit := implicit st; refresh := refresh st; at_idx := v; rt_idx := rt_idx st; pkce := pkce st; oidc := oidc st; device := device st; par := par st; dev_used := dev_used st |}.
+Definition set_rt_idx st v := {| codes := codes st; access := access st; implicit := implicit st; refresh := refresh st; at_idx := at_idx st; rt_idx := v; pkce := pkce st; oidc := oidc st; device := device st; par := par st; dev_used := dev_used st |}.
+Definition set_oidc st v := {| codes := codes st; access := access st; implicit := implicit st; refresh := refresh st; at_idx := at_idx st; rt_idx := rt_idx st; pkce := pkce st; oidc := v; device := device st; par := par st; dev_used := dev_used st |}.
+Definition set_device st v := {| codes := codes st; access := access st; implicit := implicit st; refresh := refresh st; at_idx := at_idx st; rt_idx := rt_idx st; pkce := pkce st; oidc := oidc st; device := v; par := par st; dev_used := dev_used st |}.
+Definition set_par st v := {| codes := codes st; access := access st; implicit := implicit st; refresh := refresh st; at_idx := at_idx st; rt_idx := rt_idx st; pkce := pkce st; oidc := oidc st; device := device st; par := v; dev_used := dev_used st |}.
+Definition set_dev_used st v := {| codes := codes st; access := access st; implicit := implicit st; refresh := refresh st; at_idx := at_idx st; rt_idx := rt_idx st; pkce := pkce st; oidc := oidc st; device := device st; par := par st; dev_used := v |}.
+Definition set_pkce st v := {| codes := codes st; access := access st; implicit := implicit st; refresh := refresh st; at_idx := at_idx st; rt_idx := rt_idx st; pkce := v; oidc := oidc st; device := device st; par := par st; dev_used := dev_used st |}.
 
 (* store methods; the result type says which error the method returned *)
 Inductive serr := SNotFound | SInactive.
@@ -173,6 +179,10 @@ Definition delete_refresh st k := set_refresh st (upd (refresh st) k None).
 (* device authorizations (under the device-code signature; the user-code entry points to the same request) *)
 Definition put_device st k (v : nat * req) := set_device st (upd (device st) k (Some v)).
 Definition delete_device st k := set_device st (upd (device st) k None).
+(* InvalidateDeviceCodeSession: the record leaves the table of pending codes; its request id is remembered *)
+Definition invalidate_device st k (rid : nat) := set_dev_used (delete_device st k) (upd (dev_used st) k (Some rid)).
+(* what GetDeviceCodeSession finds among the invalidated codes *)
+Definition used_device (cfg : config) st k : option nat := if cf_dev_contract cfg then dev_used st k else None.
 (* pushed authorization requests *)
 Definition create_par st k (r : req) := set_par st (upd (par st) k (Some r)).
 Definition delete_par st k := set_par st (upd (par st) k None).
